@@ -43,7 +43,7 @@ def fabs (x : Float) : Float := if x < 0 then -x else x
 
 def extentOf (ls : List Path) (c : Contours) : Rat :=
   match bbox (ls ++ c) with
-  | some (mn, mx) => max 1 (max (mx.x - mn.x) (mx.y - mn.y))
+  | some (mn, mx) => let e := max (mx.x - mn.x) (mx.y - mn.y); if e = 0 then 1 else e
   | none => 1
 
 def judgeClip (L : Lines) (A : Operand) (rhs : Tok) : String :=
@@ -58,9 +58,13 @@ def judgeClip (L : Lines) (A : Operand) (rhs : Tok) : String :=
     else if ncross = 0 then (if want.isEmpty then "nocross-outside" else "nocross-inside")
     else if s.all (fun l => l.all fun v => inside c v) then "vertices-inside-crossing"
     else if ncross ≤ 4 then "cross-few" else "cross-many"
-  let cls := s!"{lk}-{kindName A}-{cfg}" ++ (if ok then "" else "-outside-quantifier")
+  let ext := extentOf s c
+  let scale := if ext < 1 / 1024 then "-tiny" else if ext > 32768 then "-huge" else ""
+  let long := if s.any (fun l => decide (l.length > 1024)) then "-long" else ""
+  let cls := s!"{lk}-{kindName A}-{cfg}{long}{scale}" ++ (if ok then "" else "-outside-quantifier")
   match rhs with
   | "panic" :: m => s!"SPEC {cls} panic {" ".intercalate m}"
+  | "mutated" :: _ => s!"SPEC {cls} an-operand-was-modified-by-the-call"
   | "ok" :: rt =>
     match Proto.pGeom 4 rt with
     | some (.multiLineString ps, _) =>
@@ -79,7 +83,7 @@ def judgeClip (L : Lines) (A : Operand) (rhs : Tok) : String :=
             -- length clause: total length and number of pieces against the oracle's inside intervals
             let lw := (want.map pathLen).foldl (· + ·) 0
             let lg := (got.map pathLen).foldl (· + ·) 0
-            if fabs (lw - lg) > 1e-9 * (1 + lw) || want.length ≠ got.length then
+            if fabs (lw - lg) > 1e-9 * (lw + ratToFloat (extentOf s c)) || want.length ≠ got.length then
               s!"SPEC {cls} length-clause total-length want={lw} got={lg} pieces want={want.length} got={got.length}"
             else
               -- not only the vertices: the midpoint of every returned segment lies inside or on P (exact)
@@ -92,20 +96,44 @@ def judgeClip (L : Lines) (A : Operand) (rhs : Tok) : String :=
     | _ => s!"DIFF {cls} result-is-not-a-MultiLineString"
   | _ => s!"DIFF {cls} bad-answer"
 
+/-- split a token list at the separator `;;` -/
+def splitOn2 (t : Tok) : List Tok :=
+  let (cur, acc) := t.foldl (fun (st : Tok × List Tok) x => if x = ";;" then ([], st.2 ++ [st.1]) else (st.1 ++ [x], st.2)) ([], [])
+  acc ++ [cur]
+
+def parseCase (t : Tok) : Option (Lines × Operand) := do
+  let (g, t) ← Proto.pGeom 4 t
+  let L ← linesOf g
+  let t ← match t with | "|" :: t => some t | _ => none
+  let (h, _) ← Proto.pGeom 4 t
+  let A ← operandOf h
+  pure (L, A)
+
 def judgeLine (line : String) : String :=
   let (lhs, rhs) := splitArrow (tokens line)
   match lhs with
   | "clip" :: t =>
-    let parsed : Option (Lines × Operand) := do
-      let (g, t) ← Proto.pGeom 4 t
-      let L ← linesOf g
-      let t ← match t with | "|" :: t => some t | _ => none
-      let (h, _) ← Proto.pGeom 4 t
-      let A ← operandOf h
-      pure (L, A)
-    match parsed with
+    match parseCase t with
     | some (L, A) => judgeClip L A rhs
     | none => "DIFF parse bad-case-line"
+  | "hclip" :: t =>
+    -- a history: the same polygon object, its coordinates changed in place between calls; every
+    -- answer is judged against the polygon as it was at that call
+    let steps := splitOn2 t
+    let answers := splitOn2 rhs
+    if rhs.head? == some "panic" then s!"SPEC hist panic {" ".intercalate rhs}"
+    else if steps.length ≠ answers.length then s!"DIFF hist {answers.length} answers for {steps.length} calls"
+    else
+      let vs := (List.zip steps answers).zipIdx.map fun ((st, an), i) =>
+        match parseCase st with
+        | some (L, A) => (i, judgeClip L A an)
+        | none => (i, "DIFF parse bad-case-line")
+      match vs.find? fun (_, v) => !v.startsWith "OK" with
+      | some (i, v) =>
+        match v.splitOn " " with
+        | k :: c :: why => s!"{k} hist-{c} call#{i + 1}-of-{steps.length} {" ".intercalate why}"
+        | _ => v
+      | none => s!"OK hist{steps.length}-" ++ (match vs.getLast? with | some (_, v) => (v.drop 3).toString | none => "")
   | _ => "DIFF parse bad-line"
 
 end GeomV.C14
